@@ -141,3 +141,29 @@ func vValidSection(tag string, maxData int) vSection {
 	vAssume(vValidBlock(c, data))
 	return vSection{c: c, data: data}
 }
+
+// vEOFStream: a conformant io.Reader that returns its final bytes together with io.EOF
+// (like an http.Response.Body with a Content-Length, or iotest.DataErrReader).
+type vEOFStream struct {
+	data   []byte
+	pos    int
+	maxPos int
+}
+
+func (s *vEOFStream) Read(p []byte) (int, error) {
+	if len(p) == 0 {
+		return 0, nil
+	}
+	if s.pos >= len(s.data) {
+		return 0, io.EOF
+	}
+	n := copy(p, s.data[s.pos:])
+	s.pos += n
+	if s.pos > s.maxPos {
+		s.maxPos = s.pos
+	}
+	if s.pos >= len(s.data) {
+		return n, io.EOF
+	}
+	return n, nil
+}
